@@ -489,19 +489,27 @@ func (e *Env) evalCall(x *Expr) (SV, error) {
 			return SV{}, serr("final(%s): no such variable", x.Args[0].Name)
 		}
 		return sv, nil
-	case "typeis", "unbox":
-		// typeis(x, "T"): the interface value x is non-nil and has dynamic type T; unbox(x, "T"): its value as a T
-		// (the terms the executor produces for the type assertion x.(T)); T is a type name as in `alias`/`uf` declarations
-		if len(x.Args) != 2 || x.Args[1].Kind != "str" {
-			return SV{}, serr("%s(x, \"TypeName\")", x.Name)
+	case "typeis", "cast":
+		// typeis(x, T) / cast(x, T): T is a Go type given as a string literal ("*pkg/path.T", alias) or as a type
+		// expression (*Alias). typeis: the interface value x is non-nil with dynamic type T; cast: its value as a T
+		// (the terms the executor produces for the type assertion x.(T)). Synonyms of isdyn / dyn.
+		if len(x.Args) != 2 {
+			return SV{}, serr("%s(x, T)", x.Name)
 		}
 		a, err := e.Eval(x.Args[0])
 		if err != nil {
 			return SV{}, err
 		}
-		so, gt, err := v.resolveType(x.Args[1].Name)
+		tn := typeExprName(x.Args[1])
+		if x.Args[1].Kind == "str" {
+			tn = x.Args[1].Name
+		}
+		if tn == "" {
+			return SV{}, serr("%s: second argument must name a Go type", x.Name)
+		}
+		so, gt, err := v.resolveType(tn)
 		if err != nil || gt == nil {
-			return SV{}, serr("%s: cannot resolve Go type %q", x.Name, x.Args[1].Name)
+			return SV{}, serr("%s: cannot resolve Go type %q", x.Name, tn)
 		}
 		if a.T.Sort != SInt {
 			return SV{}, serr("%s: first argument is not an interface value", x.Name)
@@ -509,7 +517,7 @@ func (e *Env) evalCall(x *Expr) (SV, error) {
 		if x.Name == "typeis" {
 			return SV{T: c.And(c.Not(c.Eq(a.T, c.Int(0))), c.Eq(c.UF("typeof", SInt, a.T), v.typeTag(gt)))}, nil
 		}
-		name := "unbox_" + sanitize(shortTypeName(gt))
+		name := "un" + boxName(gt)
 		c.DeclareFun(name, []*Sort{SInt}, so)
 		return SV{T: c.App(name, so, a.T), GoT: gt}, nil
 	case "ite":
